@@ -77,6 +77,9 @@ def gen_world(rng, chans=None, sync_mask=None):
                 bits = 8 * w
                 if w == 4 and rng.random() < 0.3:
                     bits = 24
+                if w > 4 and rng.random() < 0.4:
+                    bits = rng.choice([8, 16, 24, 32, 40])       # the leading bytes of a large object only (application's data, mapped length < size)
+                    bits = min(bits, 8 * (w - 1))
                 ent = (idx, sub, bits)
             if total + bits // 8 > 8:
                 continue
@@ -99,7 +102,13 @@ def apply(rp, data, objs):
         if idx in DUMMY_BITS and idx <= 7:
             pos += n
             continue
-        objs[(idx, sub)][1] = int.from_bytes(data[pos:pos + n], "little")
+        w = objs[(idx, sub)][0]
+        if n < w and w > 4:
+            # part of a large object: the application copies the mapped bytes to the start of the object, the rest stays
+            old = objs[(idx, sub)][1].to_bytes(w, "little")
+            objs[(idx, sub)][1] = int.from_bytes(data[pos:pos + n] + old[n:], "little")
+        else:
+            objs[(idx, sub)][1] = int.from_bytes(data[pos:pos + n], "little")
         pos += n
 
 
